@@ -9,7 +9,7 @@ import runner as R
 
 RULE = ("random cue sheets of 1-12 audio tracks with strictly increasing first-index MM:SS:FF (one or several INDEX lines, with/without TITLE; "
         "MM:SS:FF drawn so that every FF value 0..74 and minute/second carries occur) over bins of length classes {multiple of 2352, +1..3, +4k, +2351, cut inside last track}; "
-        "exported WAVs compared with slices of the bin and with the model windows. Non-trivial = >=2 tracks or a partial trailing sector; distinct = distinct (cue text, bin length)")
+        "plus sheets of 70-99 tracks with 40-60 INDEX lines each (cue text well beyond 64 KiB); exported WAVs compared with slices of the bin and with the model windows. Non-trivial = >=2 tracks or a partial trailing sector; distinct = distinct (cue text, bin length)")
 
 
 def frames(i):
@@ -59,12 +59,33 @@ def expected_names(sheet):
     return names
 
 
+def gen_big(rng):
+    """a legal sheet far beyond 64 KiB of text: up to 99 tracks, each with dozens of INDEX lines (sub-indices are legal up to 99)"""
+    n = rng.randint(70, 99)
+    m = rng.randint(40, 60)
+    gap = -(-m // 4)
+    tracks, fr = [], []
+    f0 = rng.randint(0, 3)
+    for k in range(n):
+        fr.append(f0)
+        idx = []
+        for j in range(m):
+            f = f0 + j // 4
+            idx.append((j, f // 4500, (f // 75) % 60, f % 75))
+        title = None if rng.random() < 0.3 else "Track number %02d of a long disc" % (k + 1)
+        tracks.append({"number": k + 1, "mode": "AUDIO", "title": title, "indices": idx})
+        f0 += gap + rng.randint(0, 2)
+    total = (fr[-1] + 1) * 2352 + rng.choice([0, 2, 1000, 2351])
+    return {"bin": "d.bin", "tracks": tracks}, total, fr
+
+
 def w_cases(pid, tier, seed, job):
     ctx = F.Ctx(pid, tier, seed)
-    rng = random.Random(job)
-    for _ in range(8):
-        sheet, total, fr = gen_case(rng)
-        if total > 3_000_000:
+    big = isinstance(job, (list, tuple))
+    rng = random.Random(job[1] if big else job)
+    for _ in range(1 if big else 8):
+        sheet, total, fr = gen_big(rng) if big else gen_case(rng)
+        if total > 3_000_000 and not big:
             total = fr[-1] * 2352 + 100
         if total > 12_000_000:
             continue
@@ -124,7 +145,7 @@ def w_cases(pid, tier, seed, job):
 
 
 def run(ctx):
-    F.pmap(ctx, w_cases, [ctx.seed * 6007 + i for i in range(16 if ctx.quick else 240)])
+    F.pmap(ctx, w_cases, [ctx.seed * 6007 + i for i in range(16 if ctx.quick else 240)] + [("big", ctx.seed * 31 + i) for i in range(2 if ctx.quick else 10)])
 
 
 def replay(ctx, case):
